@@ -36,6 +36,12 @@ CHECKS = {
    "DESIGN.md 6 C18",
    "Trusted: VC generator, go/types, solvers; POSIX O_EXCL contract of pathlib.OpenFile; yaml.v3 Encoder; koanf Load/Unmarshal; cobra.ExactArgs(1).",
    "contract-based deductive verification: call-site (site) obligations with ghost call counters and an FS-effect frame on the real initRun, z3/cvc5"),
+ "C10": ("proof",
+   "Proved on the real RootApp.Run, TemplateGenerator.Generate, findPkgPath, Config.FilePath and InterfaceCollection.Append, for all inputs and all iteration counts: the file-system mutations reachable are MkdirAll on the parent of an output path (and the output directory in findPkgPath) and WriteFile on the output path, nothing else (effect frame over a table of FS mutators); WriteFile gets exactly the bytes Generate returned, only after Generate, MkdirAll and Exists returned nil, and only if the path does not exist or the owning package's effective force-file-write is set; Generate returns no bytes when any stage fails and formats exactly once after one successful execution; the output path is Clean(dir/filename) of a selected mock's configuration. Partial: atomicity of the WriteFile system call sequence (partial file on crash/short write) is assumed, not proved; the FS-mutator table is trusted.",
+   "DESIGN.md 6 C10", "Trusted: VC generator, go/types, solvers; FS-mutator table; pathlib WriteFile/Exists/MkdirAll semantics; no concurrent writers.", "contract-based deductive verification: VC generation over the real function bodies against //@ contracts (postconditions, loop invariants, call-site obligations, frames), z3/cvc5"),
+ "C09": ("proof",
+   "Lemma-level, proved on the real code: RootApp.Run returns nil only if Initialize, GetPackages, ParsePackages and every per-interface and per-file stage that ran returned nil (ghost last-error records carried through all loops), ends in os.Exit(1) when a listed interface is left in the missing map and returns nil only with that map empty; InterfaceCollection.Append returns nil exactly when file path, package name, source package and template agree; ParsePackages fails on packages with errors and skips failed scope lookups; ShouldExcludeSubpkg propagates regex errors; getTemplate/format/validateSchema/ParseTemplates fail on unknown template, unknown formatter, rejected template-data, cyclic values; findPkgPath terminates on every go.mod. Explicit no-panic obligations (nil map write, index, type assertion, explicit panic) are discharged in every function under contract. Not decided: unknown configuration keys (koanf), exit-status plumbing in main, panics inside libraries, stack exhaustion.",
+   "DESIGN.md 6 C09", "Trusted: VC generator, go/types, solvers; os.Exit; deep.Copy total on configuration structs; library behaviour.", "contract-based deductive verification: VC generation over the real function bodies against //@ contracts (postconditions, loop invariants, call-site obligations, frames), z3/cvc5"),
  "C11": ("proof",
    "On the real Config.ParseTemplates, for all inputs: every template execution receives data with the documented bindings (Mock = Mock/mock by exportedness, InterfaceName, InterfaceFile, InterfaceDir, SrcPackageName, SrcPackagePath, StructName, Template, ConfigDir = dir of the config parameter) and the function library attached; err == nil implies that each of dir, filename, pkgname, structname and template-schema renders to itself (fixpoint; inductive invariant over a ghost visited set of the attribute map, pairwise-distinct attribute pointers as precondition); the outer loop has variant 21 - i, and reaching the 20-pass cap returns a non-nil error with nothing truncated. Partial: FindConfig, and the documented bases of ConfigDir/InterfaceDirRelative when the file was found by search (finding D11), are not covered.",
    "DESIGN.md 6 C11",
